@@ -3,7 +3,7 @@
 # any NEW non-OK key on the patched tree is a false alarm of the checker (to be fixed in the rule).
 cd /verif
 NAMES="$@"; [ -z "$NAMES" ] && NAMES=$(ls neutral)
-bin/lhcheck -keys | sort -u > /tmp/lh_base_keys.txt
+bin/lhcheck -keys | sort -u > /tmp/lh_nbase_keys.txt
 for s in $NAMES; do
   D=/verif/neutral/$s
   WT=/tmp/lhneutral_$$_$(echo $s | tr -c 'A-Za-z0-9\n' '_')
@@ -11,6 +11,6 @@ for s in $NAMES; do
   if ! (cd $WT && patch -p1 -s --no-backup-if-mismatch < $D/patch.diff >/dev/null 2>&1); then echo "$s: patch does not apply"; rm -rf $WT; continue; fi
   bin/lhcheck -keys -repo $WT 2>&1 | sort -u > /tmp/lh_neutral_keys.txt
   rm -rf $WT
-  new=$(comm -13 /tmp/lh_base_keys.txt /tmp/lh_neutral_keys.txt)
+  new=$(comm -13 /tmp/lh_nbase_keys.txt /tmp/lh_neutral_keys.txt)
   if [ -z "$new" ]; then echo "$s: silent"; else echo "$s: ALARM"; echo "$new" | cut -c1-220 | sed 's/^/    /'; fi
 done
